@@ -75,10 +75,13 @@ def run_phase(case: dict, phase: dict, home: str, monitor_factory,
                       or os.environ.get('VERIF_E1_FORK'))
     if not needs_fork:
         return _run_inproc(case, phase, home, monitor_factory)
+    import gc
+    gc.freeze()     # fewer copy-on-write faults in the child
     pid = os.fork()
     if pid == 0:
         code = 70
         try:
+            gc.disable()
             os.setsid()
             signal.alarm(0)
             signal.signal(signal.SIGALRM, signal.SIG_DFL)
